@@ -590,9 +590,14 @@ class Folder:
             idx = self.fold(e.slice)
             if isinstance(idx, Abstract) and hasattr(idx, "choose_index") and isinstance(base, (list, tuple)):
                 return base[idx.choose_index(len(base))]
+            if COVERAGE is not None and self.mod is not None and hasattr(e, "lineno"):
+                ck = (self.mod.relpath, e.lineno, e.col_offset)
+                COVERAGE[ck] = COVERAGE.get(ck, 0) + 1
             try:
                 return base[idx]
             except (KeyError, IndexError, TypeError) as ex:
+                if COVERAGE is not None and self.mod is not None and hasattr(e, "lineno"):
+                    COVERAGE[("raised",) + (self.mod.relpath, e.lineno, e.col_offset)] = type(ex).__name__
                 raise FoldKeyError(type(ex).__name__, idx)
         if isinstance(e, ast.Call):
             return self._call(e)
@@ -1592,6 +1597,7 @@ class ARange:
         return self.r.count(x)
 
 
+COVERAGE: Optional[dict] = None  # when a rule asks: (file, line, column) of every subscript evaluated -> count; ("raised", ...) -> class
 _UNSET = object()
 PROCESS_STATE: dict = {}  # id(assignment value node) -> (node, the one object it evaluated to) for mutable module-level values
 
